@@ -114,8 +114,15 @@ def catalogue(cfg, iso, sh, rng):
         if cfg.rr:
             yield 'add_symlink', 'missing-parent:udf', LATE, lambda: iso.add_symlink(symlink_path='/SYMX.;1', rr_symlink_name='symx', rr_path='tgt',
                                                                                    udf_symlink_path='/nodir/symx', udf_target='tgt')
+    if cfg.rr:
+        yield 'set_hidden', 'missing:rr-name-sorts-last', EARLY, lambda: iso.set_hidden(rr_path='/zzzzzzzzzz-not-there')
+        deep = '/Q0/Q1/Q2/Q3/Q4/Q5/Q6'
+        if deep in dirs['iso'] and cfg.level in (2, 3):
+            # relocation: the placeholder is refused (identifier too long for a record with Rock Ridge); no RR_MOVED may stay
+            yield 'add_directory', 'deep-too-long-for-rr', EARLY, lambda: iso.add_directory(iso_path=deep + '/' + 'X' * 205, rr_name='x')
     # --- El Torito present: refusals that depend on the boot state
     if iso.eltorito_boot_catalog is not None:
+        yield 'add_isohybrid', 'bad-geometry', EARLY, lambda: iso.add_isohybrid(geometry_sectors=0)
         if not any(sec.platform_id == 0xef and sec.section_entries for sec in iso.eltorito_boot_catalog.sections):
             yield 'add_isohybrid', 'efi-without-efi-entry', EARLY, lambda: iso.add_isohybrid(efi=True)
             yield 'add_isohybrid', 'mac-without-efi-entries', EARLY, lambda: iso.add_isohybrid(mac=True)
@@ -205,6 +212,14 @@ def run(ctx):
     for i in range(n_hist):
         cfg = cfgs[i % len(cfgs)]
         ops, sizes = syslevel.gen_history(rng, cfg, rng.randrange(3, 14), allow_refusals=False, allow_boot=False)
+        if cfg.rr and rng.random() < 0.2:
+            # a chain of depth 7: the next level is where Rock Ridge relocation starts (catalogue: deep-too-long-for-rr)
+            p = ''
+            chain = []
+            for d in range(7):
+                p += '/Q%d' % d
+                chain.append({'k': 'add_dir', 'iso': p, 'rr': 'q%d' % d})
+            ops = chain + ops
         boot = rng.choice([0, 0, 1, 3])
         base, info = build_obj(cfg, ops, sizes, boot)
         if base is None:
